@@ -1,7 +1,7 @@
 """API-layer rules: R-NOEFFECT (C10) and R-ERRKIND (rows per property)."""
 import re
 
-from core import Finding, RuleResult, is_io_result_ty, view
+from core import Finding, RuleResult, atoms_match, is_io_result_ty, view
 from prov import guards
 
 REFUSAL_KINDS = ("NotFound", "AlreadyExists", "InvalidInput")
@@ -148,7 +148,7 @@ def errkind(pid):
             found = []
             for (c, kind) in refusals(ctx, f):
                 atoms = g.atoms_at(("t", c.bb))
-                if all(any(re.search(rx, a) for a in atoms) for rx in row["require"]) and not any(any(re.search(rx, a) for a in atoms) for rx in row.get("forbid", [])):
+                if all(atoms_match(rx, atoms) for rx in row["require"]) and not any(atoms_match(rx, atoms) for rx in row.get("forbid", [])):
                     found.append((c, kind, atoms))
             if not found:
                 res.gone.append(row["function"] + ":" + row["id"])
